@@ -43,6 +43,9 @@ class Ctx:
             d, info = runner.facts_dir(config)
             self.driver[config] = info
             self._facts[config] = Facts(d)
+            if self._facts[config].renames:
+                # private items whose names differ from the pinned inventory and were mapped back onto it (analysis/canon.py)
+                self.extra.setdefault("renamed_items_mapped", {})[config] = self._facts[config].renames
         return self._facts[config]
 
     # -- recording --------------------------------------------------------------------
